@@ -176,7 +176,43 @@ SCHEDULES = [
 ]
 
 
+def check_headers_across_responses():
+    """several SendEventResponse objects built in ONE process, with different charsets and no caller headers: each carries
+    exactly its own Content-Type (a client decodes by it), and non-ASCII events decode to what was yielded"""
+    import asyncio
+    from native.harness import run_wsgi, run_asgi, wsgi_environ, asgi_scope
+    import baize.wsgi as W
+    import baize.asgi as A
+    v = []
+    ev = {"event": "caf\u00e9", "data": "na\u00efve\nfa\u00e7ade", "id": "\u00fc2"}
+    for iface in ("wsgi", "asgi"):
+        for cs in ("utf-8", "latin-1", "cp1252", "utf-8"):
+            if iface == "wsgi":
+                rec = run_wsgi(W.SendEventResponse(iter([dict(ev)]), charset=cs), wsgi_environ("GET", "/"))
+                hs = {k.lower(): val for k, val in (rec["headers"] or [])}
+            else:
+                async def agen():
+                    yield dict(ev)
+                rec = run_asgi(A.SendEventResponse(agen(), charset=cs), asgi_scope("GET", "/"))
+                hs = {k.decode().lower(): val.decode("latin-1") for k, val in (rec["headers"] or [])}
+            if rec["exception"] is not None:
+                v.append("%s charset %s: raised %r" % (iface, cs, rec["exception"]))
+                continue
+            ct = hs.get("content-type", "")
+            if ct.replace(" ", "").lower() != "text/event-stream;charset=%s" % cs:
+                v.append("%s: response built with charset=%s carries Content-Type %r" % (iface, cs, ct))
+                continue
+            # decode as a client does: by the FIRST charset parameter of the header
+            first = ct.split("charset=", 1)[1].split(";")[0].strip()
+            got = eventsource_parse(rec["body"].decode(first, "replace"))
+            if [(g["data"], g["event"], g["id"]) for g in got] != [(ev["data"], ev["event"], ev["id"])]:
+                v.append("%s charset %s: decoded %r" % (iface, cs, got))
+    return v
+
+
 def replay(inputs):
+    if inputs.get("kind") == "headers":
+        return {"violated": check_headers_across_responses()}
     if inputs.get("kind") == "sequence":
         return {"violated": check_ping_and_sequence()}
     if inputs.get("kind") == "response":
@@ -230,6 +266,11 @@ def bounded(tier, seed):
     if v:
         failures.append({"inputs": {"kind": "sequence"}, "violated": v})
     for iface in ("wsgi", "asgi"):
+        if iface == "wsgi":      # (once per run: the function drives both interfaces itself)
+            evals += 8
+            hv = check_headers_across_responses()
+            if hv:
+                failures.append({"inputs": {"kind": "headers"}, "violated": hv[:3]})
         for sched in SCHEDULES:
             evals += 1
             distinct.add(("resp", iface, len(sched), tuple(p for p, _ in sched)))
